@@ -437,5 +437,5 @@ CLAIM = {
     "note": "Trusted: CPython ast, vsa symbolic folding, numpy.ma.filled / nan* semantics. The taint analysis is intra-procedural and "
             "flow-insensitive with an enumerated sanitizer list (validity indices, nan*-functions, apply_threshold, within, compute_from_obs_fcst).",
     "technique": "static analysis: must-pass-through (syntactic dominance of the cleaning call), abstract interpretation over encoding classes, "
-                 "intra-procedural taint analysis, shared structural clauses of C01/C03/C05/C07",
+                 "intra-procedural taint analysis, shared structural clauses of C01/C03/C05/C07; C04.2 the empty-array short cut of clean() is taken only under a path condition that implies an empty variable (truth-table implication) and returns an empty array; C04.5 compute_single must not bypass the pair filter",
 }
